@@ -2,6 +2,7 @@ CONSTANTS
   Bits = 0
   RowIncl = TRUE
   RootClip = TRUE
+  WideFix = TRUE
   Sizes = {0, 1, 2, 3, 16, 181, 182, 255, 256, 257, 300, 1000, 32768, 65535}
   Coords = {0, 1, 2, 3, 15, 16, 17, 180, 181, 182, 254, 255, 256, 257, 299, 300, 301, 999, 1000, 32767, 32768, 65534, 65535}
   Rows = 3
@@ -13,5 +14,5 @@ CONSTANTS
   ZS <- ZSq
   GXS <- GXSd
 SPECIFICATION Spec
-INVARIANTS IndexInBuffer IndexInjective OutsideIgnored EffectSmall AddrConforms PaintConforms
+INVARIANTS IndexInBuffer IndexInjective OutsideIgnored EffectSmall AddrConforms PaintConforms WideJudged
 CHECK_DEADLOCK FALSE
